@@ -262,6 +262,18 @@ func (s *Sim) Go(label string, fn func()) {
 	}()
 }
 
+// Holding reports whether a registered in-memory mutex that spans seam calls is held (by the
+// caller: only one task runs at a time). Seams must not make such a caller wait in virtual
+// time either: another task would block on the mutex for real and the bubble never goes idle.
+func (s *Sim) Holding() bool {
+	for _, p := range s.HeldProbes {
+		if p() {
+			return true
+		}
+	}
+	return false
+}
+
 // ParkedCount returns how many tasks wait for the scheduler.
 func (s *Sim) ParkedCount() int { s.mu.Lock(); defer s.mu.Unlock(); return len(s.parked) }
 
